@@ -2,6 +2,7 @@ import StatimeModel.Lemmas.Frames
 import StatimeModel.Lemmas.Tlv
 import StatimeModel.Lemmas.WireRoundtrip
 import StatimeModel.Lemmas.ForwarderH
+import StatimeModel.Lemmas.ForwarderPort
 import StatimeModel.Generated.ForwarderGlue
 /-
 C15 — Boundary clocks propagate TLVs faithfully and break path-trace loops.
@@ -420,6 +421,44 @@ theorem forwarder_history (ops : List Op) (i : Nat) (r : Rx)
   unfold Fwd.Inv at this
   rw [hr] at this
   simpa using this
+
+open Statime.Fwd in
+/-- **The two halves joined.** A master port's announce timer runs the forwarding loop of `send_announce` against
+its task's `TlvForwarder`. Whatever TLVs the queue's items stand for (`content`, of the sizes the queue sees), the
+bytes the port-level model appends when handed the pending list as `q` (`fwdLoop`, the subject of `announce_suffix`,
+`announce_fits`, `announce_decodes` above) are exactly the contents of the items the loop takes from the forwarder
+and keeps, in order; and what the model leaves in `q` is what the forwarder still holds. (No lag: the port task is
+fewer than 128 values behind.) -/
+theorem announce_forwards_from_the_daemons_queue (log : List Item) (r : Rx) (content : Item → FwdTlv)
+    (hsize : ∀ x, (content x).tlv.wireSize = x.size) (parent : PortId) (pt : Bool) (margin : Nat)
+    (hw : Wf log r) (hn : NoLag log r) :
+    let q := (pending log r).map content
+    let run := drain log (fun x => keepFwd parent pt (content x)) (q.length + 1) r margin []
+    fwdLoop parent pt true (q.length + 1) q margin [] =
+      ((run.1.map content).flatMap (·.tlv.bytes), (pending log run.2.1).map content) := by
+  intro q run
+  have h1 := fwdLoop_eq_drainList parent pt (q.length + 1) q margin [] (Nat.lt_succ_self _)
+  simp only [List.flatMap_nil] at h1
+  rw [h1]
+  have h2 := drainList_map content Item.size (fun x => keepFwd parent pt (content x))
+    (·.tlv.wireSize) (keepFwd parent pt) hsize (fun _ => rfl) (pending log r) margin []
+  simp only [List.map_nil] at h2
+  have hlen : (pending log r).length < q.length + 1 := by simp [q]
+  have h3 := drain_eq_drainList log (fun x => keepFwd parent pt (content x)) (q.length + 1) r margin [] hw hn hlen
+  show ((drainList (·.tlv.wireSize) (keepFwd parent pt) ((pending log r).map content) margin []).1.flatMap (·.tlv.bytes),
+        (drainList (·.tlv.wireSize) (keepFwd parent pt) ((pending log r).map content) margin []).2.1) = _
+  rw [h2]
+  simp only
+  rw [← h3.1, ← h3.2.1]
+
+
+/-- the keep test of the joined statement is the one of `announce_suffix` -/
+theorem keepFwd_is_fwdKeep (parent : PortId) (pt : Bool) (t : FwdTlv) : keepFwd parent pt t = fwdKeep parent pt t := by
+  unfold keepFwd fwdKeep
+  by_cases h : parent = t.sender
+  · simp [h]
+  · have : ¬ t.sender = parent := fun e => h e.symm
+    simp [h, this]
 
 open Statime.Fwd in
 /-- a clearing rule that leaves a master port's forwarder alone when the BMCA hands the port back -/
